@@ -39,6 +39,10 @@ pub enum GOp {
     /// representation perturbation through the public constructor (C03 runs only):
     /// (x, y, z) -> (lam^2 x, lam^3 y, lam z); the denoted group element is unchanged
     Rescale { g: Grp, dst: usize, lam: String },
+    /// rescale so that the Jacobian X (which = 0) or Y (which = 1, G1 only) coordinate becomes
+    /// the given base-field constant (1, -1, 2, R^-1, ...): a representative with a special
+    /// coordinate other than z
+    RescaleTo { g: Grp, dst: usize, which: u8, target: String },
     FrAdd { dst: usize, a: usize, b: usize },
     FrSub { dst: usize, a: usize, b: usize },
     FrMul { dst: usize, a: usize, b: usize },
@@ -75,6 +79,7 @@ impl GOp {
             GOp::SetGen { g, .. } => format!("{:?}.one", g),
             GOp::SetZero { g, .. } => format!("{:?}.zero", g),
             GOp::Rescale { g, .. } => format!("{:?}.rescale", g),
+            GOp::RescaleTo { g, which, .. } => format!("{:?}.rescale_to_{}", g, if which % 2 == 0 { "x" } else { "y" }),
             GOp::FrAdd { .. } => "Fr.add".into(),
             GOp::FrSub { .. } => "Fr.sub".into(),
             GOp::FrMul { .. } => "Fr.mul".into(),
@@ -120,6 +125,8 @@ pub trait LibG: Group + std::fmt::Debug {
     fn from_affine_parts(x: &[[u8; 32]], y: &[[u8; 32]]) -> Option<Self>;
     /// stored (Montgomery) limbs of the components of z, through the read-only hook
     fn z_limbs(&self) -> Vec<[u64; 4]>;
+    /// see aim_lambda; target is a base-field (Fq) constant, embedded as (t, 0) for G2
+    fn aim(&self, which: u8, target: &BigUint) -> Option<Vec<u8>>;
 }
 
 impl LibG for G1 {
@@ -182,6 +189,9 @@ impl LibG for G1 {
     }
     fn z_limbs(&self) -> Vec<[u64; 4]> {
         vec![sm9_core::verif::raw_fq(&self.z())]
+    }
+    fn aim(&self, which: u8, target: &BigUint) -> Option<Vec<u8>> {
+        aim_lambda::<G1, model::Q>(self, which, &model::Q::new(target.clone()))
     }
 }
 
@@ -259,6 +269,23 @@ impl LibG for G2 {
         let n = z.real() * z.real() + (z.imaginary() * z.imaginary()) + (z.imaginary() * z.imaginary());
         vec![sm9_core::verif::raw_fq(&z.real()), sm9_core::verif::raw_fq(&z.imaginary()), sm9_core::verif::raw_fq(&n)]
     }
+    fn aim(&self, which: u8, target: &BigUint) -> Option<Vec<u8>> {
+        aim_lambda::<G2, model::Q2>(self, which, &model::Q2::new(target.clone(), BigUint::zero()))
+    }
+}
+
+/// lambda such that rescaling by it makes the Jacobian X (which = 0) or Y (which = 1) coordinate
+/// of `p` equal to `target`: lambda^2 = target/X resp. lambda^3 = target/Y, solved in the model
+/// from the coordinates read through the public accessors. None if no such lambda exists.
+pub fn aim_lambda<G: LibG, F: model::RF>(p: &G, which: u8, target: &F) -> Option<Vec<u8>> {
+    let (x, y, _z) = p.jac_coords();
+    let c = F::from_parts(if which % 2 == 0 { &x } else { &y })?;
+    let ratio = target.mul(&c.inv()?);
+    let lam = if which % 2 == 0 { ratio.sqrt()? } else { ratio.cbrt()? };
+    if lam.is_zero() {
+        return None;
+    }
+    Some(lam.to_bytes())
 }
 
 pub fn fr_of(k: &BigUint) -> Fr {
@@ -547,6 +574,23 @@ fn group_step<G: LibG>(bank: &mut Bank<G>, fr: &[(Fr, BigUint)], op: &GOp, n: us
                 None => (None, Ok(())),
             }
         }
+        GOp::RescaleTo { dst, which, target, .. } => {
+            let d = *dst % n;
+            let v = bank.regs[d].0;
+            if bank.regs[d].1.is_zero() {
+                return (None, Ok(()));
+            }
+            res.reach(format!("{}|{}", nm, v.repr_class()));
+            let t = from_be(&unhex(target)) % model::q();
+            match v.aim(*which, &t).and_then(|lam| v.rescale(&lam)) {
+                Some(w) => {
+                    res.count("rescale_to_applied");
+                    bank.regs[d].0 = w;
+                    (Some(d), Ok(()))
+                }
+                None => (None, Ok(())),
+            }
+        }
         _ => unreachable!(),
     }
 }
@@ -723,7 +767,8 @@ pub fn exec(spec: &GrpSpec, prop: &str) -> RunResult {
                 | GOp::Copy { g, .. }
                 | GOp::SetGen { g, .. }
                 | GOp::SetZero { g, .. }
-                | GOp::Rescale { g, .. } => {
+                | GOp::Rescale { g, .. }
+                | GOp::RescaleTo { g, .. } => {
                     let (w, c) = match g {
                         Grp::G1 => {
                             let (w, c) = group_step(&mut st.g1, &st.fr, op, n, &mut res);
@@ -1273,7 +1318,20 @@ pub fn generate(seed: u64, pairing_heavy: bool) -> GrpSpec {
                 1 => ops.push(GOp::PrepClone { slot: pr.usize_below(m), from: pr.usize_below(m), via_from: pr.chance(1, 2) }),
                 _ => ops.push(GOp::PrepPair { slot: pr.usize_below(m), g1: a }),
             },
-            9 => ops.push(GOp::Rescale { g, dst, lam: gen_lambda(&mut pr, g) }),
+            9 => {
+                if pr.chance(1, 3) {
+                    let q = model::q();
+                    let t = match pr.below(6) {
+                        0 | 1 => BigUint::one(),
+                        2 => q - 1u32,
+                        3 => BigUint::from(2u32),
+                        _ => special_fq(&mut pr),
+                    };
+                    ops.push(GOp::RescaleTo { g, dst, which: pr.below(2) as u8, target: hex(&be32(&t)) });
+                } else {
+                    ops.push(GOp::Rescale { g, dst, lam: gen_lambda(&mut pr, g) });
+                }
+            }
             11 => {
                 // call-order templates on one prepared value: inputs related to each other (same x,
                 // same value in another representation, repeated), clones taken before the slot is
